@@ -6,6 +6,7 @@ import (
 	"go/token"
 	"go/types"
 	"regexp"
+	"regexp/syntax"
 	"sort"
 	"strings"
 
@@ -104,6 +105,65 @@ func runC12(a *A) {
 				fmt.Sprintf("shortcut regex accepts {%s}, exactly the operators %s handles", strings.Join(ops, " "), inst.cmp),
 				fmt.Sprintf("shortcut regex accepts {%s} but %s handles {%s}: an accepted operator without a case evaluates to false instead of falling back", strings.Join(ops, " "), inst.cmp, strings.Join(cases, " ")))
 		}
+	})
+	a.Rule("tables/shortcut-literal-class", 1, func() {
+		// The general engine unescapes a quoted literal, the shortcut compares the text between the quotes
+		// as written. They agree only on literals without an escape: the character class of the literal in
+		// the shortcut pattern must exclude the backslash (and the quote).
+		pat, pos := regexOf(a, "condition", "fastFieldOpStr")
+		re, err := syntax.Parse(pat, syntax.Perl)
+		if err != nil {
+			a.Und("literal-class:fastFieldOpStr", pos, "cannot parse %q: %v", pat, err)
+			return
+		}
+		var classes []*syntax.Regexp
+		var walk func(r *syntax.Regexp, quoted bool)
+		walk = func(r *syntax.Regexp, quoted bool) {
+			if r.Op == syntax.OpConcat {
+				// capture groups that sit between two quote literals
+				for i, sub := range r.Sub {
+					q := i > 0 && i+1 < len(r.Sub) && isQuoteLit(r.Sub[i-1]) && isQuoteLit(r.Sub[i+1])
+					walk(sub, q)
+				}
+				return
+			}
+			if quoted {
+				var find func(x *syntax.Regexp)
+				find = func(x *syntax.Regexp) {
+					switch x.Op {
+					case syntax.OpCharClass, syntax.OpAnyChar, syntax.OpAnyCharNotNL:
+						classes = append(classes, x)
+					}
+					for _, s := range x.Sub {
+						find(s)
+					}
+				}
+				find(r)
+				return
+			}
+			for _, sub := range r.Sub {
+				walk(sub, false)
+			}
+		}
+		walk(re, false)
+		if len(classes) == 0 {
+			a.Und("literal-class:fastFieldOpStr", pos, "no quoted literal class found in %q", pat)
+			return
+		}
+		ok := true
+		for _, c := range classes {
+			if c.Op != syntax.OpCharClass {
+				ok = false
+				continue
+			}
+			for i := 0; i+1 < len(c.Rune); i += 2 {
+				if c.Rune[i] <= '\\' && '\\' <= c.Rune[i+1] || c.Rune[i] <= '\'' && '\'' <= c.Rune[i+1] {
+					ok = false
+				}
+			}
+		}
+		a.Check(ok, "literal-class:fastFieldOpStr", pos, "the shortcut's quoted literal admits neither a backslash nor a quote: it is the same text for both evaluators",
+			"the shortcut's quoted literal admits a backslash: the general engine unescapes 'a\\\\b' to a\\b while the shortcut compares the raw text, so the two decide differently")
 	})
 	a.Rule("ordtab/compare-tables", 16, func() {
 		rel := map[string]func(x, y int) bool{
@@ -435,4 +495,8 @@ func (a *A) ruleLossless() {
 			func(x ssa.Instruction, _ *Walker) bool { return x == ssa.Instruction(st) },
 			func(r map[string]int, _ map[string]bool) bool { return r["x"] < r["M"] && r["x"] > r["m"] })
 	}
+}
+
+func isQuoteLit(r *syntax.Regexp) bool {
+	return r.Op == syntax.OpLiteral && len(r.Rune) > 0 && r.Rune[len(r.Rune)-1] == '\'' && r.Rune[0] == '\''
 }
